@@ -34,7 +34,7 @@ from pathlib import Path
 from src.core.base import BaseLintContext, MultiLanguageLintRule
 from src.core.linter_utils import load_linter_config, path_in_project
 from src.core.types import Violation
-from src.linter_config.directive_markers import has_bare_line_ignore
+from src.linter_config.directive_markers import has_bare_line_ignore, source_lines
 from src.linter_config.rule_matcher import check_bracket_rules
 
 from .config import MethodPropertyConfig
@@ -431,7 +431,7 @@ class MethodPropertyRule(MultiLanguageLintRule):  # thailint: ignore[srp,dry]
         if not context.file_content:
             return None
 
-        lines = context.file_content.splitlines()
+        lines = source_lines(context.file_content)
         if line <= 0 or line > len(lines):
             return None
 
